@@ -24,6 +24,9 @@
 #include <sys/resource.h>
 extern "C" {
 #include "matrixssl/matrixsslApi.h"
+// in-tree sample EC-256 identity, its CA and matching OCSP responses for the stapling scenarios (props/C19/testkeys_data.c)
+extern const unsigned char *const c19_tk_cert, *const c19_tk_key, *const c19_tk_ca, *const c19_tk_ca384, *const c19_tk_ocsp_good, *const c19_tk_ocsp_revoked;
+extern const size_t c19_tk_cert_len, c19_tk_key_len, c19_tk_ca_len, c19_tk_ca384_len, c19_tk_ocsp_good_len, c19_tk_ocsp_revoked_len;
 void vfh_entropy_reset(uint64_t seed);
 int vfh_entropy_select(int stream);
 void vfh_clock_set_ms(int64_t ms);
@@ -51,7 +54,7 @@ struct Armed { Armed() { c19_arm(); } ~Armed() { c19_disarm(); } };
 template <class F> static inline auto api_call(F f) -> decltype(f()) { Armed a; return f(); }
 #define API(x) api_call([&] { return (x); })
 
-static const uint64_t KMAX = 1u << 15;
+static const uint64_t KMAX = 49152;   // upper bound for N (largest scenario: TLS 1.2 ECDHE-ECDSA with a P-384-signed OCSP staple, ~38.5k)
 // Enumeration index = k * ROW + (scenario * 3 + mode): k-major, so that a time budget cuts the high-k tail of the largest
 // scenarios and never whole scenarios; ROW is prime (every shard of a 2^n sharding sees every scenario) and leaves room for 85 scenarios.
 static const uint64_t ROW = 257;
@@ -97,7 +100,7 @@ static const unsigned char TICKET_SYM[32] = { 0x11, 0x22, 0x33, 0x44, 0x55, 0x66
                                               0x12, 0x23, 0x34, 0x45, 0x56, 0x67, 0x78, 0x89, 0x9a, 0xab, 0xbc, 0xcd, 0xde, 0xef, 0xf0, 0x02 };
 static const unsigned char TICKET_MAC[32] = { 0x21, 0x22, 0x23, 0x24, 0x25, 0x26, 0x27, 0x28, 0x29, 0x2a, 0x2b, 0x2c, 0x2d, 0x2e, 0x2f, 0x30,
                                               0x31, 0x32, 0x33, 0x34, 0x35, 0x36, 0x37, 0x38, 0x39, 0x3a, 0x3b, 0x3c, 0x3d, 0x3e, 0x3f, 0x40 };
-enum KeyId { K_SRV_RSA, K_SRV_EC, K_SRV_OTHER, K_SRV_RSA_TRUST_OTHER, K_SRV_PSK, K_CLI_RSA, K_CLI_EC, K_CLI_NOID_RSA, K_CLI_NOID_EC, K_CLI_NOID_OTHER, K_CLI_PSK, K_CLI_PSK_BAD, K_SRV_RSA_BADSIG, K_NKEYS };
+enum KeyId { K_SRV_RSA, K_SRV_EC, K_SRV_OTHER, K_SRV_RSA_TRUST_OTHER, K_SRV_PSK, K_CLI_RSA, K_CLI_EC, K_CLI_NOID_RSA, K_CLI_NOID_EC, K_CLI_NOID_OTHER, K_CLI_PSK, K_CLI_PSK_BAD, K_SRV_RSA_BADSIG, K_TK_SRV, K_TK_SRV_REVOKED, K_TK_SRV_NOSTAPLE, K_TK_CLI, K_NKEYS };
 static sslKeys_t *g_keys[K_NKEYS];
 static sslKeys_t *load_keys(const char *cert, const char *key, const char *ca, bool tickets) {
     sslKeys_t *k = nullptr;
@@ -137,6 +140,13 @@ static sslKeys_t *badsig_keys() {
     if (matrixSslNewKeys(&k, NULL) < 0 || matrixSslLoadKeysMem(k, der.data(), (int32) der.size(), key.data(), (int32) key.size() - 1, NULL, 0, &lo) < 0) { fprintf(stderr, "[c19] bad-signature identity does not load\n"); abort(); }
     return k;
 }
+static sslKeys_t *testkeys_srv(const unsigned char *staple, size_t stapleLen) {
+    sslKeys_t *k = nullptr;
+    if (matrixSslNewKeys(&k, NULL) < 0 || matrixSslLoadEcKeysMem(k, c19_tk_cert, (int32) c19_tk_cert_len, c19_tk_key, (int32) c19_tk_key_len, NULL, 0) < 0 ||
+        matrixSslLoadSessionTicketKeys(k, TICKET_NAME, TICKET_SYM, 32, TICKET_MAC, 32) < 0 ||
+        (staple && matrixSslLoadOCSPResponse(k, staple, (psSize_t) stapleLen) < 0)) { fprintf(stderr, "[c19] testkeys EC-256 identity does not load\n"); abort(); }
+    return k;
+}
 static void keystore_init() {
     g_keys[K_SRV_RSA] = load_keys("srv_rsa.pem", "srv_rsa.key", "ca_rsa.pem", true);
     g_keys[K_SRV_EC] = load_keys("srv_ec.pem", "srv_ec.key", "ca_ec.pem", true);
@@ -151,6 +161,10 @@ static void keystore_init() {
     g_keys[K_CLI_PSK] = psk_keys(PSK_KEY);
     g_keys[K_CLI_PSK_BAD] = psk_keys(PSK_BAD);
     g_keys[K_SRV_RSA_BADSIG] = badsig_keys();
+    g_keys[K_TK_SRV] = testkeys_srv(c19_tk_ocsp_good, c19_tk_ocsp_good_len);
+    g_keys[K_TK_SRV_REVOKED] = testkeys_srv(c19_tk_ocsp_revoked, c19_tk_ocsp_revoked_len);
+    g_keys[K_TK_SRV_NOSTAPLE] = testkeys_srv(NULL, 0);
+    { sslKeys_t *k = nullptr; if (matrixSslNewKeys(&k, NULL) < 0 || matrixSslLoadEcKeysMem(k, NULL, 0, NULL, 0, c19_tk_ca, (int32) c19_tk_ca_len) < 0 || matrixSslLoadEcKeysMem(k, NULL, 0, NULL, 0, c19_tk_ca384, (int32) c19_tk_ca384_len) < 0) { fprintf(stderr, "[c19] testkeys CA does not load\n"); abort(); } g_keys[K_TK_CLI] = k; }
 }
 static void keystore_delete() { for (auto &k : g_keys) if (k) { API(matrixSslDeleteKeys(k)); k = nullptr; } }
 
@@ -273,18 +287,20 @@ static void sni_cb(void *, char *, int32, sslKeys_t **newKeys) { *newKeys = g_sn
 // ------------------------------------------------------------------------------------------------ scenarios
 enum Ver { TLS11, TLS12, TLS13, DTLS12 };
 static const char *ver_name[] = { "tls1.1", "tls1.2", "tls1.3", "dtls1.2" };
-enum Kind { SC_LOAD, SC_SESS, SC_HS };
+enum Kind { SC_LOAD, SC_SESS, SC_HS, SC_TWO };
 enum HsKind { H_FULL, H_CAUTH, H_RESUME_ID, H_RESUME_TICKET };
 static const char *hs_name[] = { "full", "client-auth", "resumed", "ticket-resumed" };
-enum Cred { GOOD, BAD_CA, BAD_NAME, BAD_PSK, BAD_CLIENT_CERT, BAD_SIG };
-static const char *cred_name[] = { "good", "bad-ca", "bad-name", "bad-psk", "bad-client-cert", "bad-signature" };
+enum Cred { GOOD, BAD_CA, BAD_NAME, BAD_PSK, BAD_CLIENT_CERT, BAD_SIG, BAD_OCSP };
+static const char *cred_name[] = { "good", "bad-ca", "bad-name", "bad-psk", "bad-client-cert", "bad-signature", "revoked-staple" };
 struct Scn {
     std::string name; int kind; int sub; int ver; uint16_t suite; int ckey, skey; int hs; int cred; bool data; int order; bool exts; int pmtu; int group;
+    bool ocsp = false;     // client sends status_request (OCSPstapling session option; this build has USE_OCSP_MUST_STAPLE)
+    bool noname = false;   // testkeys certificates: no expectedName
     int gck, gsk;   // partner keys for the usability handshakes: (ckey with gsk) and (gck with skey) must both work fault-free; -1 = no such partner
 };
 static std::vector<Scn> g_scn;
 
-struct HsCfg { int ver; uint16_t suite; sslKeys_t *ck, *sk; bool cauth; sslSessionId_t *sid; const char *name; bool tickets; bool exts; int group; };
+struct HsCfg { int ver; uint16_t suite; sslKeys_t *ck, *sk; bool cauth; sslSessionId_t *sid; const char *name; bool tickets; bool exts; int group; bool ocsp; };
 // TLS 1.3 key exchange groups: 0 library default (P-256 share), 1 x25519 only, 2 client offers an x25519 share but the server only accepts P-256 (HelloRetryRequest)
 static int32 set_groups(sslSessOpts_t *o, int group, bool client) {
     uint16_t x[2] = { 0x001d, 0x0017 }, p[1] = { 0x0017 };
@@ -322,6 +338,7 @@ static bool open_pair(Conn &cn, const HsCfg &h, int ext_delete_early) {
     if (h.ver == DTLS12) co.versionFlag = SSL_FLAGS_DTLS | SSL_FLAGS_TLS_1_2;
     else { psProtocolVersion_t v[1] = { ver_bit(h.ver) }; rc = API(matrixSslSessOptsSetClientTlsVersions(&co, v, 1)); if (rc < 0) return false; }
     if (h.tickets) co.ticketResumption = 1;
+    if (h.ocsp) co.OCSPstapling = 1;
     if (h.ver == TLS13 && set_groups(&co, h.group, true) < 0) return false;
     if (h.exts) {
         rc = API(matrixSslNewHelloExtension(&cn.ext, NULL));
@@ -375,6 +392,7 @@ static bool ended_with_error(Conn &cn) { return cn.c.failed || cn.s.failed || cn
 static HsCfg cfg_of(const Scn &s, sslKeys_t *ck, sslKeys_t *sk, int hs, sslSessionId_t *sid, bool good_name) {
     HsCfg h; h.ver = s.ver; h.suite = s.suite; h.ck = ck; h.sk = sk; h.cauth = (hs == H_CAUTH); h.sid = sid;
     h.name = good_name ? "localhost" : "wronghost.example"; h.tickets = (hs == H_RESUME_TICKET || s.hs == H_RESUME_TICKET); h.exts = s.exts; h.group = s.group;
+    h.ocsp = s.ocsp; if (s.noname) h.name = NULL;
     return h;
 }
 
@@ -548,8 +566,70 @@ static void run_sess(const Scn &s) {
     if (sid) API(matrixSslDeleteSessionId(sid));
 }
 
+// ---- two-phase scenarios: phase 1 = one loading / refresh call on a key set that is in use (armed, under the fault plan);
+// phase 2 = fault-free handshakes that use exactly the feature the call touched, on the same sslKeys_t - the application
+// keeps serving after a failed refresh.
+static bool phase2(const Scn &s, sslKeys_t *ck, sslKeys_t *sk, bool must_complete, const char *what, bool want_resume = false) {
+    vfh_entropy_reset(9191); vfh_clock_set_ms(3000000);
+    sslSessionId_t *sid = nullptr; bool ok = true;
+    if (want_resume && API(matrixSslNewSessionId(&sid, NULL)) < 0) { viol("c19:unusable-after-fault", "%s: matrixSslNewSessionId fails without fault", what); return false; }
+    for (int round = 0; round < (want_resume ? 2 : 1) && ok; round++) {
+        Conn cn; HsCfg h = cfg_of(s, ck, sk, H_FULL, sid, true); h.tickets = want_resume;
+        bool opened = open_pair(cn, h, 0), done = opened && handshake(cn);
+        outcome("%s#%d=%d%s;", what, round, done, done && API(matrixSslIsResumedSession(cn.c.ssl)) == PS_TRUE ? "(resumed)" : "");
+        if (!done) {
+            ok = false;
+            if (must_complete) viol("c19:feature-unusable-after-failed-call", "%s: fault-free handshake does not complete (client err %d alert %d, server err %d alert %d)", what, cn.c.first_err, cn.c.fatal_alert, cn.s.first_err, cn.s.fatal_alert);
+            else if (opened && !ended_with_error(cn)) viol("c19:silent-stall", "%s: handshake neither completed nor ended with an error or alert", what);
+        }
+        cn.close_all(round);
+    }
+    if (sid) API(matrixSslDeleteSessionId(sid));
+    return ok;
+}
+static void run_two(const Scn &s) {
+    static const unsigned char TK2_NAME[16] = { 't', 'i', 'c', 'k', 'e', 't', '-', 'k', 'e', 'y', '-', '0', '0', '0', '0', '2' };
+    int32 rc = 0;
+    if (s.sub <= 2) {
+        // 0: first staple on a serving key set, 1/2: periodic refresh of the staple; then a status_request client (TLS 1.2 / 1.3)
+        sslKeys_t *sk = g_keys[s.sub == 0 ? K_TK_SRV_NOSTAPLE : K_TK_SRV], *ck = g_keys[K_TK_CLI];
+        rc = API(matrixSslLoadOCSPResponse(sk, c19_tk_ocsp_good, (psSize_t) c19_tk_ocsp_good_len));
+        outcome("LoadOCSPResponse=%d;", rc);
+        c19_plan_off(); g_shm->n_alloc_scn = c19_alloc_count();
+        if (rc < 0) g_shm->any_error = 1;
+        // a failed refresh leaves the server without a staple: a must-staple client is then refused, but cleanly
+        phase2(s, ck, sk, rc >= 0, "stapling handshake after the load call");
+        if (rc < 0 && !g_shm->sig[0]) {
+            int32 r2 = API(matrixSslLoadOCSPResponse(sk, c19_tk_ocsp_good, (psSize_t) c19_tk_ocsp_good_len));
+            if (r2 < 0) viol("c19:unusable-after-fault", "fault-free matrixSslLoadOCSPResponse after a failed one returns %d", r2);
+            else phase2(s, ck, sk, true, "stapling handshake after a fault-free reload");
+        }
+    } else if (s.sub == 3) {
+        // rotate session ticket keys on a serving key set, then a ticket client (full + ticket-resumed)
+        sslKeys_t *sk = g_keys[K_SRV_RSA], *ck = g_keys[K_CLI_NOID_RSA];
+        rc = API(matrixSslLoadSessionTicketKeys(sk, TK2_NAME, TICKET_MAC, 32, TICKET_SYM, 32));
+        outcome("LoadSessionTicketKeys=%d;", rc);
+        if (rc >= 0 && s.order) { unsigned char nm[16]; memcpy(nm, TICKET_NAME, 16); int32 r2 = API(matrixSslDeleteSessionTicketKey(sk, nm)); outcome("DeleteSessionTicketKey=%d;", r2); }
+        c19_plan_off(); g_shm->n_alloc_scn = c19_alloc_count();
+        if (rc < 0) g_shm->any_error = 1;
+        phase2(s, ck, sk, true, "ticket handshakes after the key rotation", true);
+    } else {
+        // add a second trust anchor file to a client key set in use, then handshakes against servers under the old and the new root
+        sslKeys_t *ck = g_keys[K_CLI_NOID_RSA];
+        // (memory variant: it appends to the list; the file variant replaces the list)
+        Bytes ca; file_bytes(pki("ca_ec.pem"), ca); ca.push_back(0);
+        rc = API(matrixSslLoadKeysMem(ck, NULL, 0, NULL, 0, ca.data(), (int32) ca.size() - 1, NULL));
+        outcome("LoadKeysMem(add CA)=%d;", rc);
+        c19_plan_off(); g_shm->n_alloc_scn = c19_alloc_count();
+        if (rc < 0) g_shm->any_error = 1;
+        Scn r = s; r.suite = 0x009C;
+        phase2(r, ck, g_keys[K_SRV_RSA], rc >= 0, "handshake under the original root after adding a root");
+        if (rc >= 0) { Scn e = s; e.suite = 0xC02B; phase2(e, ck, g_keys[K_SRV_EC], true, "handshake under the added root"); }
+    }
+}
+
 static void run_scenario(const Scn &s) {
-    switch (s.kind) { case SC_LOAD: run_load(s); break; case SC_SESS: run_sess(s); break; default: run_hs(s); break; }
+    switch (s.kind) { case SC_LOAD: run_load(s); break; case SC_SESS: run_sess(s); break; case SC_TWO: run_two(s); break; default: run_hs(s); break; }
 }
 
 static void add_hs(const char *nm, int ver, uint16_t suite, int ck, int sk, int hs, int cred, bool data, int order, bool exts, int gck, int gsk, int group = 0, int pmtu = 0) {
@@ -613,6 +693,18 @@ static void build_scenarios() {
     // right issuer, right name, corrupted certificate signature
     add_hs("rsa-gcm", TLS12, 0x009C, R, K_SRV_RSA_BADSIG, H_FULL, BAD_SIG, false, 0, false, -1, SR);
     add_hs("aes128-gcm/rsa-cert/x25519", TLS13, 0x1301, R, K_SRV_RSA_BADSIG, H_FULL, BAD_SIG, false, 1, false, -1, SR, 1);
+    // OCSP stapling: server holds a staple, client sends status_request (and, in this build, requires the staple)
+    add_hs("ecdhe-ecdsa-gcm/ocsp-staple", TLS12, 0xC02B, K_TK_CLI, K_TK_SRV, H_FULL, GOOD, false, 0, false, K_TK_CLI, K_TK_SRV); g_scn.back().ocsp = g_scn.back().noname = true;
+    add_hs("aes128-gcm/ec-cert/x25519/ocsp-staple", TLS13, 0x1301, K_TK_CLI, K_TK_SRV, H_FULL, GOOD, false, 1, false, K_TK_CLI, K_TK_SRV, 1); g_scn.back().ocsp = g_scn.back().noname = true;
+    add_hs("ecdhe-ecdsa-gcm/ocsp-staple", TLS12, 0xC02B, K_TK_CLI, K_TK_SRV_REVOKED, H_FULL, BAD_OCSP, false, 0, false, -1, K_TK_SRV); g_scn.back().ocsp = g_scn.back().noname = true;
+    // two-phase: a loading / refresh call under the fault plan, then fault-free use of the same key set
+    static const char *tn[] = { "ocsp-first-staple/then-tls1.2-status_request-client", "ocsp-refresh/then-tls1.2-status_request-client", "ocsp-refresh/then-tls1.3-status_request-client",
+                                "ticket-key-rotation/then-ticket-client", "add-trust-anchor/then-handshakes-under-both-roots" };
+    for (int i = 0; i < 5; i++) for (int o = 0; o < (i == 3 ? 2 : 1); o++) {
+        Scn s; s.kind = SC_TWO; s.sub = i; s.ver = (i == 2) ? TLS13 : TLS12; s.suite = (i == 2) ? 0x1301 : i <= 1 ? 0xC02B : 0x002F; s.ckey = s.skey = 0; s.hs = H_FULL; s.cred = GOOD; s.data = false; s.order = o;
+        s.exts = false; s.pmtu = 0; s.gck = s.gsk = -1; s.group = (i == 2) ? 1 : 0; s.ocsp = s.noname = (i <= 2);
+        s.name = fmt("two-phase/%s%s", tn[i], o ? "+delete-old-key" : ""); g_scn.push_back(s);
+    }
 }
 
 // ------------------------------------------------------------------------------------------------ child
@@ -635,13 +727,13 @@ static void child_main(const Scn &s, int mode, uint64_t k, uint64_t trace_seq) {
     }
     run_scenario(s);
     c19_plan_off();
-    if (s.kind != SC_LOAD) g_shm->n_alloc_scn = c19_alloc_count();
+    if (s.kind != SC_LOAD && s.kind != SC_TWO) g_shm->n_alloc_scn = c19_alloc_count();
     if (mode == M_NONE) {
         uint64_t n = std::min<uint64_t>(g_shm->n_alloc_scn, SITES_MAX);
         memcpy(g_shm->sites, c19_sites(), n * sizeof(void *)); memcpy(g_shm->sizes, c19_sizes(), n * sizeof(uint32_t)); memcpy(g_shm->ctxs, c19_ctxs(), n * sizeof(uint32_t)); g_shm->n_sites = (uint32_t) n;
     }
     // the library must still be usable with the same keys
-    if (!g_shm->sig[0] && s.kind != SC_LOAD) {
+    if (!g_shm->sig[0] && s.kind != SC_LOAD && s.kind != SC_TWO) {
         Facts f2 = facts_now();
         bool ca = (s.hs == H_CAUTH && s.cred == GOOD);
         if (s.gsk >= 0) usable_pair(s, g_keys[s.ckey], g_keys[s.gsk], "client keys", ca);
@@ -855,7 +947,7 @@ static void prop(Tape &t, Ctx &c) {
                             (unsigned long long) g_shm->n_fault, (unsigned long long) f0.seq, site_str(fsite).c_str(), (unsigned long long) f0.size, stack_str(f0, 1).c_str());
     (void) idx;
     c.count(std::string("mode:") + mode_name[mode]);
-    c.count(std::string("kind:") + (s.kind == SC_LOAD ? "load" : s.kind == SC_SESS ? "session" : s.cred == GOOD ? "handshake-good" : "handshake-bad"));
+    c.count(std::string("kind:") + (s.kind == SC_LOAD ? "load" : s.kind == SC_SESS ? "session" : s.kind == SC_TWO ? "two-phase" : s.cred == GOOD ? "handshake-good" : "handshake-bad"));
     if (c.verbose) {
         fprintf(stderr, "case: %s\n  outcome: %s\n  crashed=%d sig=%s\n", where.c_str(), g_shm->outcome, r.crashed, g_shm->sig);
         for (uint64_t i = 0; i < g_shm->n_fault && i < C19_FAULTLOG; i++) fprintf(stderr, "  fault %llu: allocation #%llu (%llu bytes) %s\n", (unsigned long long) i + 1, (unsigned long long) g_shm->flog[i].seq, (unsigned long long) g_shm->flog[i].size, stack_str(g_shm->flog[i], 0).c_str());
